@@ -4,7 +4,7 @@
    compare with what the implementation showed.  Definitions only. *)
 From Coq Require Import String ZArith List Bool Arith.
 From PF Require Import Lib.ListX Lib.PySlice Model.Ragged Model.RaggedSpec Model.RaggedRun Model.RaggedCat Model.Frame
-     Model.FrameSpec Model.FrameStore Gen.Tables.
+     Model.FrameSpec Model.FrameStore Model.Allclose Gen.Tables.
 Import ListNotations.
 Open Scope bool_scope.
 
@@ -194,7 +194,8 @@ Inductive lobs := LErr | LCol (s : stype) (o : featobs) | LUnreadable.
 Definition eq_code (a b : option tframe) : nat :=
   match a, b with
   | Some fa, Some fb =>
-      match tf_eq Z.eqb fa fb with Some true => 1 | Some false => 0 | None => 2 end
+      (* scalars are compared with torch.allclose's own formula (Model/Allclose.v) on the 1/8 grid *)
+      match tf_eq close_grid fa fb with Some true => 1 | Some false => 0 | None => 2 end
   | _, _ => 3
   end.
 
@@ -274,3 +275,34 @@ Definition c08_store_check (parts after : list (list (stype * list string)))
 Definition c07_index_store_check (l : list Z) (containers n : nat) (after : list Z) : bool :=
   let r := getitem_index_store [l] 0 n containers in
   list_eqb Z.eqb (hget [] (fst r) 0) after && forallb (fun a => 1 <=? a) (snd r).
+
+(* Executable form of Props/C08.v allclose_spec: torch.allclose's decision on one pair of scalars (exact dyadic
+   rationals num/den) against the rational formula of Model/Allclose.v. *)
+Definition c08_allclose_check (an : Z) (ad : positive) (bn : Z) (bd : positive) (decision : bool) : bool :=
+  Bool.eqb (allclose_q (QArith_base.Qmake an ad) (QArith_base.Qmake bn bd)) decision.
+
+(* Executable form of Props/C07.v getitem_chain_composes: the frame the implementation returned at the END of a chain
+   is the ONE selection of the composed positions (chain_positions) from the original frame; a chain that raised has no
+   composed positions. *)
+Definition c07_compose_check (e : fexpr) (p : list index) (final : fobs) : bool :=
+  match e with
+  | EBuild fs nm yy ov =>
+      match eval e with
+      | Some f =>
+          let vs := map (fun sf => (fst sf, view_of_spec (snd sf))) fs in
+          match tf_num_rows f with
+          | Some n =>
+              match chain_positions n p with
+              | Some pos => fobs_eqb (observe (sel_frame pos vs nm yy ov)) final
+                            && otframe_eqb (tf_getitem_chain f p) (Some (sel_frame pos vs nm yy ov))
+              | None => match vs, yy, ov with
+                        | [], None, None => true
+                        | _, _, _ => fobs_eqb FOErr final && otframe_eqb (tf_getitem_chain f p) None
+                        end
+              end
+          | None => false
+          end
+      | None => true
+      end
+  | _ => true
+  end.
